@@ -227,3 +227,115 @@ Proof.
   apply bind_ok in H as (u1 & _ & H). apply bind_ok in H as (u2 & _ & H). apply bind_ok in H as (blc & _ & H).
   apply Ok_inj, pair_equal_spec in H as [<- _]. exact Hc.
 Qed.
+
+(* ---------------------------------------------------------------- last_update untouched *)
+Definition lu_same (b b' : bank) : Prop := b_last_update b' = b_last_update b.
+
+Lemma lu_same_refl b : lu_same b b.
+Proof. unfold lu_same. reflexivity. Qed.
+Lemma lu_same_trans a b c : lu_same a b -> lu_same b c -> lu_same a c.
+Proof. unfold lu_same. congruence. Qed.
+
+Ltac lu_refl := unfold lu_same; cbn; reflexivity.
+
+Lemma lu_set_tas v b : lu_same b (set_b_tas v b). Proof. lu_refl. Qed.
+Lemma lu_set_tls v b : lu_same b (set_b_tls v b). Proof. lu_refl. Qed.
+Lemma lu_set_ins v b : lu_same b (set_b_ins v b). Proof. lu_refl. Qed.
+Lemma lu_set_grp v b : lu_same b (set_b_grp v b). Proof. lu_refl. Qed.
+Lemma lu_set_prog v b : lu_same b (set_b_prog v b). Proof. lu_refl. Qed.
+Lemma lu_set_asv v b : lu_same b (set_b_asv v b). Proof. lu_refl. Qed.
+Lemma lu_dec_lend b : lu_same b (dec_lend b). Proof. lu_refl. Qed.
+Lemma lu_dec_bor b : lu_same b (dec_bor b). Proof. lu_refl. Qed.
+
+Lemma lu_update_counts b ha hl ha' hl' : lu_same b (update_counts b ha hl ha' hl').
+Proof.
+  unfold update_counts, inc_lend, dec_lend, inc_bor, dec_bor.
+  destruct (negb ha && ha'), (ha && negb ha'), (negb hl && hl'), (hl && negb hl'); lu_refl.
+Qed.
+
+Lemma lu_change_asset b sh byp b' : change_asset_shares b sh byp = Ok b' -> lu_same b b'.
+Proof. intros H. apply change_asset_shares_inv in H as ->. apply lu_set_tas. Qed.
+Lemma lu_change_liab b sh byp b' : change_liability_shares b sh byp = Ok b' -> lu_same b b'.
+Proof. intros H. apply change_liability_shares_inv in H as ->. apply lu_set_tls. Qed.
+
+Lemma lu_claim b bl now b1 bl1 : claim_emissions b bl now = Ok (b1, bl1) -> lu_same b b1.
+Proof.
+  intros H. destruct (claim_emissions_core _ _ _ _ _ H) as [C _].
+  destruct C as (_&_&_&_&_&_&_&U&_). unfold lu_same. exact U.
+Qed.
+
+Lemma lu_increase b bl now delta t b' bl' : increase_balance b bl now delta t = Ok (b', bl') -> lu_same b b'.
+Proof.
+  unfold increase_balance. intros H.
+  apply bind_ok in H as ([b0 bl0] & Hc & H). apply lu_claim in Hc.
+  apply bind_ok in H as (cur_l & _ & H). apply bind_ok in H as (d0 & _ & H). apply bind_ok in H as (u & _ & H).
+  apply bind_ok in H as (ash & _ & H). apply bind_ok in H as (a' & _ & H).
+  apply bind_ok in H as (b1 & H1 & H). apply lu_change_asset in H1.
+  apply bind_ok in H as (lsh & _ & H). apply bind_ok in H as (nl & _ & H). apply bind_ok in H as (l' & _ & H).
+  apply bind_ok in H as (b2 & H2 & H). apply lu_change_liab in H2.
+  apply Ok_inj, pair_equal_spec in H as [<- _].
+  eapply lu_same_trans; [exact Hc|]. eapply lu_same_trans; [exact H1|].
+  eapply lu_same_trans; [exact H2|]. apply lu_update_counts.
+Qed.
+
+Lemma lu_decrease b bl now delta t b' bl' : decrease_balance b bl now delta t = Ok (b', bl') -> lu_same b b'.
+Proof.
+  unfold decrease_balance. intros H.
+  apply bind_ok in H as ([b0 bl0] & Hc & H). apply lu_claim in Hc.
+  apply bind_ok in H as (cur_a & _ & H). apply bind_ok in H as (d0 & _ & H). apply bind_ok in H as (u & _ & H).
+  apply bind_ok in H as (ash & _ & H). apply bind_ok in H as (nash & _ & H). apply bind_ok in H as (a' & _ & H).
+  apply bind_ok in H as (b1 & H1 & H). apply lu_change_asset in H1.
+  apply bind_ok in H as (lsh & _ & H). apply bind_ok in H as (l' & _ & H).
+  apply bind_ok in H as (b2 & H2 & H). apply lu_change_liab in H2.
+  apply bind_ok in H as (u2 & _ & H).
+  apply Ok_inj, pair_equal_spec in H as [<- _].
+  eapply lu_same_trans; [exact Hc|]. eapply lu_same_trans; [exact H1|].
+  eapply lu_same_trans; [exact H2|]. apply lu_update_counts.
+Qed.
+
+Lemma lu_withdraw_all b bl now b' bl' n : withdraw_all b bl now = Ok (b', bl', n) -> lu_same b b'.
+Proof.
+  unfold withdraw_all. intros H.
+  apply bind_ok in H as ([b0 bl0] & Hc & H). apply lu_claim in Hc.
+  apply bind_ok in H as (cur_a & _ & H). apply bind_ok in H as (cur_l & _ & H).
+  apply bind_ok in H as (u1 & _ & H). apply bind_ok in H as (u2 & _ & H). apply bind_ok in H as (blc & _ & H).
+  apply bind_ok in H as (nsh & _ & H). apply bind_ok in H as (b2 & H2 & H). apply lu_change_asset in H2.
+  apply bind_ok in H as (u3 & _ & H). apply bind_ok in H as (fl & _ & H). apply bind_ok in H as (dust & _ & H).
+  apply bind_ok in H as (ins & _ & H). apply bind_ok in H as (n' & _ & H).
+  apply Ok_inj, pair_equal_spec in H as [H _]. apply pair_equal_spec in H as [<- _].
+  eapply lu_same_trans; [exact Hc|]. eapply lu_same_trans; [apply lu_dec_lend|].
+  eapply lu_same_trans; [exact H2|]. apply lu_set_ins.
+Qed.
+
+Lemma lu_repay_all b bl now b' bl' n : repay_all b bl now = Ok (b', bl', n) -> lu_same b b'.
+Proof.
+  unfold repay_all. intros H.
+  apply bind_ok in H as ([b0 bl0] & Hc & H). apply lu_claim in Hc.
+  apply bind_ok in H as (cur_l & _ & H). apply bind_ok in H as (cur_a & _ & H).
+  apply bind_ok in H as (u1 & _ & H). apply bind_ok in H as (u2 & _ & H). apply bind_ok in H as (blc & _ & H).
+  apply bind_ok in H as (nsh & _ & H). apply bind_ok in H as (b2 & H2 & H). apply lu_change_liab in H2.
+  apply bind_ok in H as (ce & _ & H). apply bind_ok in H as (dust & _ & H).
+  apply bind_ok in H as (ins & _ & H). apply bind_ok in H as (n' & _ & H).
+  apply Ok_inj, pair_equal_spec in H as [H _]. apply pair_equal_spec in H as [<- _].
+  eapply lu_same_trans; [exact Hc|]. eapply lu_same_trans; [apply lu_dec_bor|].
+  eapply lu_same_trans; [exact H2|]. apply lu_set_ins.
+Qed.
+
+Lemma lu_socialize b loss b' kill : socialize_loss b loss = Ok (b', kill) -> lu_same b b'.
+Proof.
+  unfold socialize_loss. intros H. apply bind_ok in H as (total & _ & H).
+  destruct (total <=? loss).
+  - apply Ok_inj, pair_equal_spec in H as [<- _]. apply lu_set_asv.
+  - apply bind_ok in H as (d & _ & H). apply bind_ok in H as (nsv & _ & H).
+    apply Ok_inj, pair_equal_spec in H as [<- _]. apply lu_set_asv.
+Qed.
+
+Lemma lu_close_balance b bl now b' bl' : close_balance b bl now = Ok (b', bl') -> lu_same b b'.
+Proof.
+  unfold close_balance. intros H.
+  apply bind_ok in H as ([b0 bl0] & Hc & H). apply lu_claim in Hc.
+  apply bind_ok in H as (cur_l & _ & H). apply bind_ok in H as (cur_a & _ & H).
+  apply bind_ok in H as (u1 & _ & H). apply bind_ok in H as (u2 & _ & H). apply bind_ok in H as (blc & _ & H).
+  apply Ok_inj, pair_equal_spec in H as [<- _]. exact Hc.
+Qed.
+
